@@ -480,6 +480,7 @@ func oriString(o [4]int) string {
 }
 
 func c12(p *core.Program, r *core.Report) {
+	envelopeTestsExactRule(p, r, "envelope-tests-exact")
 	const (
 		rCase = "orientation-case-analysis"
 		rCopy = "endpoint-copied"
